@@ -4,6 +4,7 @@ package NoKV
 
 import (
 	"github.com/feichai0017/NoKV/lsm"
+	"github.com/feichai0017/NoKV/utils"
 	"github.com/feichai0017/NoKV/wal"
 )
 
@@ -33,3 +34,17 @@ func (db *DB) VerifVlogFiles() (files map[uint32][]uint32, active map[uint32]uin
 // VerifWALWatchdog returns the DB's own WAL watchdog (nil when disabled) so that the
 // harness can trigger passes deterministically with RunOnce.
 func (db *DB) VerifWALWatchdog() *wal.Watchdog { return db.walWatchdog }
+
+// VerifOracleMarks returns the oracle's commit (txnMark) and read (readMark) watermarks.
+func (db *DB) VerifOracleMarks() (txnMark, readMark *utils.WaterMark) {
+	return db.orc.txnMark, db.orc.readMark
+}
+
+// VerifOracleLockFree reports whether the oracle mutex is currently free.
+func (db *DB) VerifOracleLockFree() bool {
+	if db.orc.TryLock() {
+		db.orc.Unlock()
+		return true
+	}
+	return false
+}
